@@ -1,3 +1,4 @@
 //! Reference models (written from POSIX / docs, not from the implementation).
 pub mod vars;
 pub mod arith;
+pub mod fnm;
